@@ -266,6 +266,8 @@ class _FilesystemDataSource(DataSource):
 
             def walk_path_recursive():
                 count = 0
+                if limit is not None and limit <= 0:
+                    return
                 dir_path_str = str(dir_path)
                 for dirpath, dirname, filenames in os.walk(dir_path_str):
                     if (
@@ -296,6 +298,8 @@ class _FilesystemDataSource(DataSource):
 
             def walk_path():
                 count = 0
+                if limit is not None and limit <= 0:
+                    return
                 for entry in dir_path.iterdir():
                     if entry.name == ".versions" or entry.name == ".tmp":
                         continue
